@@ -1138,3 +1138,48 @@ func (c *Check) slashFractionsValidated(rule string) {
 		c.RequireFact(v, rule, f+"-below-one", `^!LegacyDec\.GTE\(`+x+`, sdkmath\.(LegacyNewDec\(1\)|LegacyOneDec\(\))\)`+ord+`$|^LegacyDec\.LT\(`+x+`, sdkmath\.(LegacyNewDec\(1\)|LegacyOneDec\(\))\)`+ord+`$`, nil, "")
 	}
 }
+
+// ---- C18/R8: the order of a queue that is not exported does not leak into persistent state ----
+
+// derivedQueueOrder: the relayer voter queue is a derived collection: it is not in the exported genesis, InitGenesis
+// rebuilds it by walking the voter records (address order) while the running chain fills it in arrival order. Where
+// the running chain copies such a list, as a whole and in its order, into persistent ordered state (the voter list of
+// the relayer group), the list must have been put into a canonical order first — otherwise a chain started from an
+// export orders its group differently from the chain it was exported from.
+func (c *Check) derivedQueueOrder(rule string) {
+	p := c.p
+	n := 0
+	for _, f := range p.ProdFuncs {
+		if p.isGenerated(f) || len(f.Blocks) == 0 || !strings.HasPrefix(FuncKey(f), "x/relayer/keeper.") {
+			continue
+		}
+		for _, s := range p.renderedStores(f) {
+			if !strings.HasSuffix(s.addr, ".Voters") || !strings.HasPrefix(s.val, "append(") {
+				continue
+			}
+			for _, q := range []string{"OnBoarding", "OffBoarding"} {
+				list := "Queue.Get()#0." + q
+				args := topArgs(s.val[len("append(") : len(s.val)-1])
+				if len(args) != 2 || args[1] != list {
+					continue
+				}
+				n++
+				c.touch(f)
+				cons := "derived-order Queue." + q + " → Relayer.Voters @ " + FuncKey(f)
+				sorted := regexp.MustCompile(`^(slices\.Sort|sort\.Strings|slices\.SortFunc|slices\.SortStableFunc)\(` + regexp.QuoteMeta(list) + `[,)]`)
+				var sorts []ssa.Instruction
+				for _, ci := range callsIn(f) {
+					if sorted.MatchString(p.CallStr(ci)) {
+						sorts = append(sorts, ci)
+					}
+				}
+				if t, _ := (&PathSearch{Fn: f, AvoidInstr: instrSet(sorts), IsTarget: func(in ssa.Instruction) bool { return in == ssa.Instruction(s.in) }}).Find(); t == nil && len(sorts) > 0 {
+					c.Held(rule, cons, p.InstrPos(s.in), "the list is sorted before its order is copied into the group")
+				} else {
+					c.Violated(rule, cons, p.InstrPos(s.in), "the voter list of the relayer group takes over the order of Queue."+q+", which is arrival order on the running chain but voter-record (address) order on a chain initialised from an export (the queue is not exported; InitGenesis rebuilds it from the voter records): the two chains elect differently ordered groups")
+				}
+			}
+		}
+	}
+	c.Floor(rule, "whole-list copies of a voter queue into the relayer group", n, 1)
+}
